@@ -195,6 +195,8 @@ def apply_op(S, op, prop='C03'):
     pre_model = dict(S.m)
     alias = _alias_involved(S, touched)
     unenc = any(isinstance(x, archmc.Unencodable) for x in _flat(op[1:]))
+    # a key with a path separator in it is touched by, or present during, the operation
+    pathsep = any(isinstance(q, str) and os.sep in q for q in list(touched) + list(S.m.keys()))
 
     def bad(rule, detail, **kw):
         sig = dict(base)
@@ -202,6 +204,7 @@ def apply_op(S, op, prop='C03'):
         sig['pre'] = pre
         sig['alias'] = alias
         sig['unenc'] = unenc
+        sig['pathsep'] = pathsep
         sig.update(kw)
         out.append((sig, detail))
 
